@@ -663,3 +663,25 @@ def const_value(body, op, bits=64, _depth=0):
         table = {"Add": a + b, "Sub": a - b, "BitAnd": a & b, "BitOr": a | b, "BitXor": a ^ b, "Shl": a << (b & 127), "Shr": a >> (b & 127), "Mul": a * b}
         return table[op_] & mask if op_ in table else None
     return None
+
+
+def refers_to_local(body, op, l, depth=0):
+    """operand is (a copy of) local l, or a reference/reborrow chain to it"""
+    pl = op_place(op)
+    if pl is None or depth > 8:
+        return False
+    if pl["l"] == l and all(p == "*" for p in pl["p"]):
+        return True
+    if l in copy_chain_locals(body, op):
+        return True
+    for d in body.defs().get(pl["l"], []):
+        if d[0] == "assign":
+            rv = d[3]["rv"]
+            if rv["r"] in ("ref", "rawptr") and rv["pl"]["l"] == l and all(p == "*" for p in rv["pl"]["p"]):
+                return True
+            if rv["r"] in ("ref", "rawptr") and rv["pl"]["p"] == ["*"]:
+                if refers_to_local(body, {"c": {"l": rv["pl"]["l"], "p": [], "t": 0}}, l, depth + 1):
+                    return True
+            if rv["r"] == "use" and refers_to_local(body, rv["o"], l, depth + 1):
+                return True
+    return False
